@@ -270,6 +270,6 @@ def same_outputs(ctx, fl, rnd, spec, engine, text):
                 ctx.violation("the imported engine raises where the original does not (or vice versa)", {"fll": text[:2500], "rows": block}, outs[0], outs[1])
             continue
         for ov, a, b in zip(fresh.output_variables, outs[0], outs[1]):
-            if not W.agree(ctx, a, b, "output value"):
+            if not W.same(a, b):
                 ctx.violation("the imported engine computes different outputs although every parameter is representable at the configured decimals", {"fll": text[:2500], "rows": block, "variable": ov.name}, a, b)
                 return
